@@ -54,6 +54,11 @@ def hook_present():
     return None
 
 
+def replace_hook_present():
+    vr = os.path.join(SRC, "agdb_server", "src", "verif.rs")
+    return os.path.exists(vr) and "user{index}r" in open(vr).read()
+
+
 def script_hook_present():
     vr = os.path.join(SRC, "agdb_server", "src", "verif.rs")
     return os.path.exists(vr) and "VERIF_C31_SCRIPT" in open(vr).read()
@@ -93,7 +98,7 @@ def gen_cases(tier, seed):
         for perm in itertools.permutations(range(k)):
             cases.append([(i + 1, perm[i] * STEP) for i in range(k)])
     rng = random.Random(seed)
-    for k in (4, 5):        # carriers of the fixed script templates (gen_scripts)
+    for k in (4, 5, 3, 6):  # carriers of the fixed script templates (gen_scripts)
         cases.append([(i + 1, ((i * 2) % k) * STEP) for i in range(k)])
     for _ in range(nrand):
         k = rng.randint(2, krand)
@@ -110,6 +115,11 @@ def gen_scripts(cases, seed):
     # fixed templates first (for the first cases with 4 and 5 entries): a prefix committed on its own, another append,
     # then ONE commit call covering several entries, the newest of which was appended after the first commit
     templates = {4: ["a1", "a2", "a3", "c1", "a4", "c4"], 5: ["a1", "a2", "a3", "a4", "c2", "a5", "c5"]}
+    if replace_hook_present():
+        # an uncommitted entry replaced before it is committed (`r<i>`: what a new leader's append does on a follower;
+        # the hook gives the replacing entry the user name user<i>r): only the replacing entry may ever execute
+        templates[3] = ["a1", "a2", "r2", "a3", "c3"]
+        templates[6] = ["a1", "a2", "a3", "c1", "r3", "a4", "r4", "a5", "a6", "c6"]
     for n, c in enumerate(cases):
         k = len(c)
         if k in templates:
@@ -235,6 +245,14 @@ def run(ctx):
             disagreements.append(dict(what="no observation", case=desc, model=mlines[no][:500], impl="(the test entry point printed nothing for this case; see impl_raw.txt)"))
             continue
         order, effect, unexec = o["ORDER"], o["EFFECT"], (o.get("UNEXECUTED") or [None])[0]
+        replaced = sorted({int(x[1:]) for x in (scripts[no] or []) if x[0] == "r"})
+        if replaced:
+            dist["scripted with replaced uncommitted entries"] = dist.get("scripted with replaced uncommitted entries", 0) + 1
+            stale = [i for i in effect if i in replaced]
+            if stale or sorted(i - 1000 for i in effect if i >= 1000) != replaced:
+                failures.append(dict(cls="replaced-entry-executed", what="%s: entries %s were replaced while uncommitted; users inserted (index, +1000 = replacing entry): %s; notified %s"
+                                     % (desc, replaced, effect, order)))
+            effect = [i - 1000 if i >= 1000 else i for i in effect if i not in replaced or i >= 1000]
         if len(samples) < 4 and by_delay != idxs:
             samples.append("%s -> ORDER %s EFFECT %s UNEXECUTED %s" % (case_str(c), order, effect, unexec))
         if sorted(order) != idxs or sorted(effect) != idxs:
